@@ -723,6 +723,101 @@ def r04_12(ctx, rep):
     rep.ob(R, PARSER + ":" + L, "child enumerations inspected", n >= 2, "expected at least the visibility walk and the type_prefix enumeration (found %d)" % n)
 
 
+
+def _ctx_rule(fn, e, rules, cparam, own_rule, depth=4):
+    """grammar rule of the parse-tree context an expression evaluates to, resolved through accessor calls, locals, worklist pops and
+    loop targets; None when unknown"""
+    if depth == 0:
+        return None
+    if is_name(e, cparam):
+        return own_rule
+    if isinstance(e, ast.Call) and isinstance(e.func, ast.Attribute):
+        if e.func.attr in rules:
+            return e.func.attr
+        if e.func.attr == "pop":
+            return _ctx_rule(fn, e.func.value, rules, cparam, own_rule, depth - 1)
+    if isinstance(e, (ast.List, ast.Tuple)) and e.elts:
+        return _ctx_rule(fn, e.elts[0], rules, cparam, own_rule, depth - 1)
+    if isinstance(e, ast.BinOp) and isinstance(e.op, ast.Add):
+        return _ctx_rule(fn, e.left, rules, cparam, own_rule, depth - 1) or _ctx_rule(fn, e.right, rules, cparam, own_rule, depth - 1)
+    if isinstance(e, ast.Subscript):
+        return _ctx_rule(fn, e.value, rules, cparam, own_rule, depth - 1)
+    if isinstance(e, ast.Name):
+        for st in walk_local(fn):
+            if isinstance(st, ast.Assign) and any(is_name(t, e.id) for t in st.targets) and not (isinstance(st.value, ast.Name) and st.value.id == e.id):
+                r = _ctx_rule(fn, st.value, rules, cparam, own_rule, depth - 1)
+                if r:
+                    return r
+            if isinstance(st, ast.For) and any(isinstance(t, ast.Name) and t.id == e.id for t in ast.walk(st.target)):
+                r = _ctx_rule(fn, st.iter, rules, cparam, own_rule, depth - 1)
+                if r:
+                    return r
+    return None
+
+
+@SPEC.rule(
+    "R04.13",
+    "a self-referential grammar rule is walked to the end: wherever a handler calls the accessor of a recursive rule on a context of "
+    "that same rule (`import_list.import_list()`), the call sits inside a `while` worklist loop — a `for` over one call, or a list built "
+    "from one call, reaches one level of nesting only, and with import_list : IDENT (',' import_list)* everything after the second name "
+    "is one level further down",
+)
+def r04_13(ctx, rep):
+    R = "R04.13"
+    gp, rules, gctx, ms, generic = _facts(ctx, R)
+    recursive = {r for r in rules if r in _rule_refs(rules[r].alts)}
+    n = 0
+    for name, fn in sorted(ms.items()):
+        cparam = fn.args.args[1].arg if len(fn.args.args) > 1 else "ctx"
+        hc = _handler_ctx(name)
+        own_rule = next((r for r in rules if ctx_name(r) == hc), None)
+        for c in calls(fn):
+            if not (isinstance(c.func, ast.Attribute) and c.func.attr in recursive and not c.args):
+                continue
+            rule = c.func.attr
+            recv = c.func.value
+            # receiver is a context of the same rule (resolved through the accessor that produced it); the handler's own ctx calling
+            # its own rule's accessor is the recursive formulation (children handled by their own exit handler) and is fine
+            if is_name(recv, cparam):
+                continue
+            if _ctx_rule(fn, recv, rules, cparam, own_rule) != rule:
+                continue
+            n += 1
+            in_while = False
+            p_ = getattr(c, "_parent", None)
+            while p_ is not None and p_ is not fn:
+                if isinstance(p_, ast.While):
+                    in_while = True
+                p_ = getattr(p_, "_parent", None)
+            rep.ob(R, "%s:%s.%s" % (PARSER, L, name), "nested %s contexts walked by a worklist" % rule, in_while,
+                   "`%s` is evaluated once (outside any while loop): only the first level of the nested %s contexts is visited, deeper items are lost" % (norm(c)[:60], rule))
+    rep.ob(R, PARSER + ":" + L, "recursive-rule walks inspected", n >= 1, "expected at least the import_list walk (found %d)" % n)
+
+
+@SPEC.rule(
+    "R04.14",
+    "delimiters are cut off by position: no handler of the AST listener applies str.strip/lstrip/rstrip with a character argument (or "
+    "replace()) to token text — `.strip('\"')` removes every quote at either end, so a description ending in an escaped quote loses it; "
+    "the quoted forms are cut with [1:-1]",
+)
+def r04_14(ctx, rep):
+    R = "R04.14"
+    gp, rules, gctx, ms, generic = _facts(ctx, R)
+    hits = []
+    n = 0
+    for name, fn in sorted(ms.items()):
+        n += 1
+        for c in calls(fn):
+            if isinstance(c.func, ast.Attribute) and ((c.func.attr in ("strip", "lstrip", "rstrip", "removeprefix", "removesuffix") and c.args) or c.func.attr in ("replace", "translate")):
+                src = norm(c.func.value)
+                if "getText" in src or "text" in src.lower() or isinstance(c.func.value, (ast.Name, ast.Call, ast.Subscript)):
+                    hits.append("%s: %s" % (name, norm(c)[:60]))
+    if n < 40:
+        raise MechanismMissing(R, "fewer than 40 listener handlers found")
+    rep.ob(R, PARSER + ":" + L, "no character-set stripping or replacing of token text", not hits,
+           "; ".join(hits[:4]) + " — the stored text differs from the source text for inputs that carry the stripped character inside the delimiters")
+
+
 # -- seeded variants ---------------------------------------------------------
 from ._mut import delete_stmt_where, replace_in_func  # noqa: E402
 
@@ -868,3 +963,33 @@ def _m_implist(mod):
         return False
 
     return mod if replace_in_func(mod, "ASTListener.exitImport_clause", edit) else None
+
+
+@SPEC.mutant("import names taken from one level of the nested list", PARSER, "R04.13", "walked by a worklist")
+def _m_onelevel(mod):
+    def edit(fn):
+        for node in ast.walk(fn):
+            for fld in ("body", "orelse"):
+                b = getattr(node, fld, None)
+                if isinstance(b, list):
+                    for i, st in enumerate(b):
+                        if isinstance(st, ast.While):
+                            b[i] = ast.parse("for name_node in [import_list] + import_list.import_list():\n    import_clause.components.append(package_name.concatenate(package_name.from_string(name_node.IDENT().getText())))").body[0]
+                            return True
+        return False
+
+    return mod if replace_in_func(mod, "ASTListener.exitImport_clause", edit) else None
+
+
+@SPEC.mutant("comment quotes removed with strip", PARSER, "R04.14", "stripping")
+def _m_strip(mod):
+    def edit(fn):
+        for n in ast.walk(fn):
+            if isinstance(n, ast.Subscript) and isinstance(n.slice, ast.Slice) and "getText" in norm(n.value):
+                new = ast.parse("x.strip('\"')", mode="eval").body
+                new.func.value = n.value
+                n.value, n.slice = new, ast.Slice(lower=None, upper=None, step=None)
+                return True
+        return False
+
+    return mod if replace_in_func(mod, "ASTListener.exitString_comment", edit) else None
